@@ -74,7 +74,7 @@ func (f *FM) setInt(d int, v *big.Int) {
 }
 
 var fieldClasses = []string{"zero", "one", "two", "minus_one", "minus_two", "half_up", "half_down", "limb_pattern", "near_p",
-	"small", "square", "nonsquare", "random", "random", "mont_window", "mont_window"}
+	"small", "square", "nonsquare", "random", "random", "mont_window", "mont_window", "stored_limb_struct", "stored_near_const"}
 
 func (f *FM) fieldOf(class string) *big.Int {
 	switch class {
@@ -108,6 +108,10 @@ func (f *FM) fieldOf(class string) *big.Int {
 	case "mont_window": // the stored (Montgomery) limbs lie in a boundary window: next to 0, 2^255, p/2, p, word boundaries
 		w, _ := f.window()
 		return mulmod(new(big.Int).Mod(w, bigP), rInvP, bigP)
+	case "stored_limb_struct":
+		return mulmod(new(big.Int).Mod(f.limbStruct(), bigP), rInvP, bigP)
+	case "stored_near_const":
+		return mulmod(new(big.Int).Mod(f.nearMontConst(bigP), bigP), rInvP, bigP)
 	case "square":
 		v := f.randBig(bigP)
 		return v.Mul(v, v).Mod(v, bigP)
@@ -196,7 +200,20 @@ func genC12(m *M, budget int) {
 				f.emitF("FSet", ids[:2]...)
 			case 11:
 				var data []byte
-				switch f.rng.Intn(7) {
+				switch f.rng.Intn(12) {
+				case 7: // every limb independently p's limb, p's limb +-1, 0 or all ones
+					data = be32(f.limbwiseNeighbour(bigP))
+					f.class("parse:limbwise_neighbour_of_p")
+				case 8, 9: // boundary windows (incl. values that share p's HIGH limbs and differ in the low one)
+					w, wc := f.window()
+					data = be32(new(big.Int).Mod(w, bigR))
+					f.class("parse:" + wc)
+				case 10:
+					data = be32(f.highLimbsOfP())
+					f.class("parse:high_limbs_of_p")
+				case 11:
+					data = be32(f.limbStruct())
+					f.class("parse:limb_struct")
 				case 0:
 					data = be32(bigP)
 				case 1:
@@ -241,6 +258,20 @@ func genC12(m *M, budget int) {
 					f.emitF("FSet", kv{"d", 3}, kv{"a", a + 1})
 					f.emitF("FEquals", kv{"a", a + 1}, kv{"b", 3}, kv{"ret", clamp(f.F[a].Equals(f.F[2]))})
 				} else {
+					if a != b && f.rng.Intn(2) == 0 { // operands whose STORED forms differ in one limb / one bit only
+						am := mulmod(new(big.Int).SetBytes(f.F[a].Bytes()), bigR, bigP)
+						var dm *big.Int
+						if f.rng.Intn(2) == 0 {
+							dm = new(big.Int).Lsh(new(big.Int).SetUint64(f.rng.Uint64()|1), uint(64*f.rng.Intn(4)))
+						} else {
+							dm = new(big.Int).Lsh(one, uint(f.rng.Intn(256)))
+						}
+						am.Xor(am, dm)
+						if am.Cmp(bigP) < 0 {
+							f.class("equals:one_limb_apart")
+							f.setInt(b, mulmod(am, rInvP, bigP))
+						}
+					}
 					f.emitF("FEquals", kv{"a", a + 1}, kv{"b", b + 1}, kv{"ret", clamp(f.F[a].Equals(f.F[b]))})
 				}
 			case 17:
@@ -256,7 +287,36 @@ func genC12(m *M, budget int) {
 // wide48 returns a 48-byte string from the classes of DESIGN C09 (ii).
 func (f *FM) wide48() []byte {
 	out := make([]byte, 48)
-	switch f.rng.Intn(11) {
+	switch f.rng.Intn(13) {
+	case 11, 12: // after the first fold (which carries out of 2^256) the wrapped sum has a RUN of all-ones limbs above a low
+		// limb within c of 2^64: the second fold's carry must ripple through every one of them
+		mod := []*big.Int{bigP, bigN}[f.rng.Intn(2)]
+		c := new(big.Int).Sub(bigR, mod)
+		run := 1 + f.rng.Intn(3)
+		t := new(big.Int)
+		if run < 3 {
+			t = f.randBig(new(big.Int).Lsh(one, uint(20+f.rng.Intn(12)))) // what is above the run (the wrapped sum is < 2^161 for p)
+			if mod == bigN {
+				t = f.randBig(new(big.Int).Lsh(one, uint(64*(3-run))))
+			}
+		}
+		for i := 0; i < run; i++ {
+			t.Lsh(t, 64).Or(t, new(big.Int).SetUint64(^uint64(0)))
+		}
+		lowc := new(big.Int).And(c, new(big.Int).SetUint64(^uint64(0)))
+		low := new(big.Int).Sub(new(big.Int).Lsh(one, 64), new(big.Int).Add(big.NewInt(1), f.randBig(lowc)))
+		t.Lsh(t, 64).Or(t, low)
+		hi := f.randBig(new(big.Int).Lsh(one, 128))
+		hi.SetBit(hi, 127, 1)
+		lo := new(big.Int).Add(bigR, t)
+		lo.Sub(lo, new(big.Int).Mul(hi, c)) // lo + hi c = 2^256 + t
+		if lo.Sign() >= 0 && lo.Cmp(bigR) < 0 {
+			v := new(big.Int).Lsh(hi, 256)
+			v.Add(v, lo)
+			v.FillBytes(out)
+		} else {
+			f.rng.Read(out)
+		}
 	case 8, 9, 10: // hi * 2^256 + lo whose first fold  lo + hi * (2^256 mod m)  lands next to 2^256 (a carry at the edge)
 		mod := []*big.Int{bigP, bigN}[f.rng.Intn(2)]
 		c := new(big.Int).Sub(bigR, mod)
